@@ -231,6 +231,8 @@ impl TableLookup {
         }
 
         for value in values {
+            #[cfg(btdht_verif)]
+            crate::verif_log::record(format!("YIELD {:?} {value}", self.id_generator.action_id()));
             self.tx.send(value).unwrap_or(())
         }
 
@@ -262,6 +264,8 @@ impl TableLookup {
     }
 
     pub async fn recv_finished(&mut self, port: Option<u16>, socket: &Socket) {
+        #[cfg(btdht_verif)]
+        crate::verif_log::record(format!("FINISHED {:?}", self.id_generator.action_id()));
         // Announce if we were told to
         if self.will_announce {
             // Partial borrow so the filter function doesnt capture all of self
